@@ -1,7 +1,8 @@
 (* C10/Properties.v — streamed parsing ignores chunking; the callback gets every byte.
    Statements only; proofs in C09/Proofs.v and C10/Proofs.v.  [drive], [spec]: C09/Model.v. *)
 From Coq Require Import ZArith List Bool.
-From RM Require Import Base.Word C08.Model C11.Model C09.Model C09.Grammar C09.Driver C09.Proofs C09.ProofsBytes C10.Model C10.Proofs C10.ProofsCache C10.ProofsAsync.
+From RM Require Import Base.Word C08.Model C11.Model C09.Model C09.Grammar C09.Driver C09.Proofs C09.ProofsBytes C10.Model C10.Proofs C10.ProofsCache C10.ProofsAsync C09.ProofsFinish C09.ProofsFinal.
+From RM Require C09.Pins.
 Import ListNotations.
 Open Scope Z_scope.
 
@@ -147,3 +148,37 @@ Example c10_nonvacuous_unterminated :
   (o_kind o1, o_code o1, o_line o1, o_skind o1, o_scode o1) = (1, 4, 5, 1, 4) /\
   (o_kind o3, o_code o3, o_line o3) = (1, 4, 5).
 Proof. vm_compute. split; reflexivity. Qed.
+
+(* ================================================================== round 4 *)
+
+(* Streamed = whole, on the real table, with the table known to EXIST: under any schedule the streamed parse of an
+   input whose lines are shorter than 80 KiB ends with the verdict of the schedule-free specification, and that
+   verdict is a symbol table or an error — SymbolParser::finish cannot panic (C09.ProofsFinish). *)
+Theorem c10_streamed_equals_whole_defined :
+  forall (lines : list rle) (tail : Z),
+    short_lines cllen lines tail ->
+    exists t, table_of (spec_c lines tail) = Ret t /\
+      forall sch, exists s, drive_c lines tail sch = Ret (spec_c lines tail, s) /\
+                            cbsum s = total s /\ (t <> None -> cbsum s = input_len rle cllen lines tail).
+Proof.
+  intros lines tail Hs.
+  destruct (parse_total lines tail []) as [r0 [s0 [t [H0 T0]]]].
+  destruct (table_chunk_independent lines tail Hs []) as [r1 [s1 [H1 [E1 _]]]].
+  rewrite H0 in H1. inversion H1; subst r1 s1. subst r0.
+  exists t. split; [exact T0|]. intros sch.
+  destruct (table_chunk_independent lines tail Hs sch) as [r [s [H [E _]]]]. subst r.
+  exists s. split; [exact H|].
+  destruct (drive_callback rle cllen pst init_pst recog_pst bump_pst lineno_pst ProofsBytes.cllen_pos lines tail sch _ s H) as [C [_ A]].
+  split; [exact C|]. intros Ht.
+  destruct (spec_c lines tail) as [p|c ln] eqn:S; [apply (A p); reflexivity|].
+  cbn [table_of] in T0. inversion T0; subst t. contradiction Ht; reflexivity.
+Qed.
+Print Assumptions c10_streamed_equals_whole_defined.
+
+(* parse_async's loop in the model is the loop assembled from the conditions the translator extracts from
+   parse_async's own source text (translate/symfile_loop.py; coq/Gen/SymFileLoop.v, the async_ definitions). *)
+Theorem c10_async_loop_is_source :
+  forall (L : Type) (llen : L -> Z) (PS : Type) (recog : PS -> L -> PS + Z) (bump : PS -> PS) (lineno : PS -> Z) s,
+    step_async L llen PS recog bump lineno s = Pins.step_async_src L llen PS recog bump lineno s.
+Proof. intros. apply Pins.pin_step. Qed.
+Print Assumptions c10_async_loop_is_source.
